@@ -320,13 +320,54 @@ impl RSchema {
 				}
 			}
 		}
+		// namespace that is "enclosing" for the children of each node (AST-determined: the nearest
+		// record above; unnamed nodes have a unique parent)
+		let mut unnamed_parent: HashMap<Id, Id> = HashMap::new();
+		for &p in &reach {
+			for c in self.children(p) {
+				if !self.is_named(c) {
+					unnamed_parent.insert(c, p);
+				}
+			}
+		}
+		let ctx_of = |mut p: Id| -> Option<String> {
+			let mut steps = 0;
+			loop {
+				if let Kind::Record { name, .. } = &self.nodes[p].kind {
+					return split_fullname(name).0.map(|s| s.to_owned());
+				}
+				match unnamed_parent.get(&p) {
+					Some(&q) if steps < self.nodes.len() => {
+						p = q;
+						steps += 1;
+					}
+					_ => return None,
+				}
+			}
+		};
 		for _attempt in 0..4 {
 			let mut plan: HashMap<Id, (Id, usize)> = HashMap::new();
 			for (&n, es) in &edges {
 				if n == 0 {
 					continue;
 				}
-				plan.insert(n, *rng.pick(es));
+				// a null-namespace type cannot be *referred to* from inside a namespace: an
+				// occurrence in such a context has to carry the definition ("namespace": "")
+				let null_ns = self.fullname(n).map_or(false, |f| !f.contains('.'));
+				let forced: Vec<&(Id, usize)> = if null_ns {
+					es.iter().filter(|(p, _)| ctx_of(*p).is_some()).collect()
+				} else {
+					vec![]
+				};
+				match forced.len() {
+					0 => {
+						plan.insert(n, *rng.pick(es));
+					}
+					1 => {
+						plan.insert(n, *forced[0]);
+					}
+					_ => return None,
+				}
 			}
 			// tree parent of each node
 			let mut parent: HashMap<Id, Id> = HashMap::new();
